@@ -138,7 +138,48 @@ pub fn check_set(b: &Automerge, base_hashes: &BTreeSet<ChangeHash>, new: &[Chang
             rep.count("evaluations", 1);
         }
     }
+    // the same deliveries with ONE local edit of the receiver at every point of every order: held
+    // changes (of other actors, whatever their seq) must survive the receiver's own transaction
+    for path in [Path::Apply, Path::LoadIncremental] {
+        for p in permutations(new.len()) {
+            for k in 0..=p.len() {
+                let mut d = recv();
+                let mut st = sync::State::new();
+                let mut delivered: Vec<&Change> = vec![];
+                let mut local: Option<ChangeHash> = None;
+                for (step, &i) in p.iter().enumerate() {
+                    if step == k {
+                        local = Some(local_edit(&mut d)?);
+                    }
+                    let c = &new[i];
+                    deliver(&mut d, &mut st, c, path).map_err(|e| Violation::new("delivery-ok", format!("{:?}+local-edit", path), format!("perm {:?} edit at {}: {}", p, k, e)))?;
+                    delivered.push(c);
+                    let mut applied = applied_set(base_hashes, &delivered);
+                    if let Some(l) = local {
+                        applied.insert(l);
+                    }
+                    let have: BTreeSet<ChangeHash> = d.get_changes(&[]).iter().map(|c| c.hash()).collect();
+                    if have != applied {
+                        let lost: Vec<String> = applied.difference(&have).map(|h| h.to_string()).collect();
+                        return Err(Violation::new("applied-set", format!("{:?}+local-edit", path), format!("order {:?}, local edit before delivery {}: after {} deliveries the document holds {} changes, the largest ready subset (+ the local change) has {}; not applied: {:?}", p, k, delivered.len(), have.len(), applied.len(), lost))
+                            .with_case(serde_json::json!({"perm": p, "local_edit_at": k, "path": format!("{:?}", path)})));
+                    }
+                }
+                rep.count("evaluations", 1);
+                rep.count("orders_with_local_edit", 1);
+            }
+        }
+    }
     Ok(())
+}
+
+/// one committed change by the receiver's own actor
+fn local_edit(d: &mut Automerge) -> Result<ChangeHash, Violation> {
+    use automerge::transaction::Transactable;
+    let mut tx = d.transaction();
+    tx.put(automerge::ROOT, "receiver-local", 1).map_err(|e| Violation::new("delivery-ok", "local-edit", format!("{:?}", e)))?;
+    let (h, _) = tx.commit();
+    h.ok_or_else(|| Violation::new("delivery-ok", "local-edit", "the local edit produced no change"))
 }
 
 pub fn run(args: &Args) -> i32 {
